@@ -2,7 +2,7 @@
    The model (Model/Reconstruct.v) starts from the decompressed chunks of the fetched ranges; index arithmetic that
    would panic or wrap in the code is an explicit error (None).  The facts about the source the functions were read
    from are regenerated on every run. *)
-From Coq Require Import NArith Bool List.
+From Coq Require Import NArith Bool List Permutation.
 Import ListNotations.
 From XetModel Require Import Gen.ReconFacts Model.Cache Model.Reconstruct Proofs.CacheProofs Proofs.CacheHitProofs Proofs.ReconstructProofs.
 Open Scope N_scope.
@@ -30,15 +30,18 @@ Theorem C17_parallel_eq_sequential : forall terms off total out n,
   par_write terms (map lenN terms) off total (seq 0 (length terms)) = Some (out, n) -> seq_write terms true off total = Some out.
 Proof. exact par_write_in_order_eq_seq. Qed.
 
-(* the order in which the tasks finish does not matter: computed for a three-term plan and every rotation of the
-   completion order (the general statement over all permutations is exercised by the correspondence with 1, 2 and 16
-   concurrent downloads; its Coq proof is not part of this revision) *)
+(* the order in which the tasks finish does not matter: for every permutation of the completion order the parallel
+   writer produces the same file and reports the same length as in plan order (the regions of the plan are pairwise
+   disjoint, and positioned writes into disjoint regions commute) *)
+Theorem C17_completion_order_irrelevant : forall terms off total order,
+  Permutation order (seq 0 (length terms)) ->
+  par_write terms (map lenN terms) off total order = par_write terms (map lenN terms) off total (seq 0 (length terms)).
+Proof. exact par_write_any_order. Qed.
+
 Example C17_completion_order_example :
   seq_write ex_terms true 2 9 = Some [3; 4; 5; 6; 7; 8; 9; 10; 11] /\
-  par_write ex_terms [5; 3; 4] 2 9 [0; 1; 2]%nat = Some ([3; 4; 5; 6; 7; 8; 9; 10; 11], 9) /\
-  par_write ex_terms [5; 3; 4] 2 9 [2; 0; 1]%nat = Some ([3; 4; 5; 6; 7; 8; 9; 10; 11], 9) /\
-  par_write ex_terms [5; 3; 4] 2 9 [1; 2; 0]%nat = Some ([3; 4; 5; 6; 7; 8; 9; 10; 11], 9).
-Proof. exact ex_reconstruct. Qed.
+  par_write ex_terms [5; 3; 4] 2 9 [2; 0; 1]%nat = Some ([3; 4; 5; 6; 7; 8; 9; 10; 11], 9).
+Proof. destruct ex_reconstruct as (A & _ & B & _). split; assumption. Qed.
 
 Example C17_source_shape_pinned : reconstruction_shape_pinned = true.
 Proof. reflexivity. Qed.
@@ -46,3 +49,4 @@ Proof. reflexivity. Qed.
 Print Assumptions C17_trim_to_term_exact.
 Print Assumptions C17_sequential_writer_exact.
 Print Assumptions C17_parallel_eq_sequential.
+Print Assumptions C17_completion_order_irrelevant.
